@@ -27,7 +27,7 @@ Inductive pc :=
 | PSrc (q : req) (b : N) (got : list N)   (* KIter: about to call the wrapped next(); positions obtained so far, latest first *)
 | PSetF (q : req) (b : N) (got : list N)  (* KIter: about to store completed := true (saw None) *)
 | PPub (q : req) (b : N) (got : list N)   (* KIter: about to fetch_add the yielded counter *)
-| PUnw (q : req) (got : list N)           (* KIter: unwinding from a panic of the wrapped iterator: about to store completed := true *)
+| PUnw (q : req) (b : N) (got : list N)   (* KIter: unwinding from a panic of the wrapped iterator: about to store completed := true *)
 | PSkip                                   (* about to perform the access of skip_to_end *)
 | PLen (hm : bool)                        (* about to perform the first access of try_get_len / has_more *)
 | PLen2 (hm : bool).                      (* KIter, exact hint: about to load the reserved counter *)
@@ -273,6 +273,44 @@ Fixpoint merge_runs (rs : list run) : list run :=
 Definition one_res (rs : list run) : res :=
   match rs with r :: _ => ROne r | [] => RNone end.
 
+(** a direct pull that obtained the elements [rs] ([cnt] of them, from index [b] on): new thread
+    state, result, elements destroyed when the caller drops what it did not take *)
+Definition deliver_top (e : env) (ts : tstate) (q : req) (b : N) (rs : list run) (cnt : N)
+  : tstate * (res * list drops) :=
+  let idle := set_pc ts PIdle in
+  match q_mode q with
+  | MSingle v => (idle, (one_res (if reports_idx v then rs else map strip_idx rs), []))
+  | MChunk k =>
+      let took := N.min k cnt in
+      (idle, (chunk_res b rs cnt took, drops_after e took rs))
+  | MBuf k =>
+      let took := N.min k cnt in
+      match e_kind e, t_buf ts with
+      | KIter, Some bf =>
+          let '(sl, stale) := write_slots (bf_slots bf) (runs_vals rs) in
+          let sl' := take_slots (N.to_nat took) sl in
+          ({| t_pc := PIdle; t_todo := t_todo ts;
+              t_buf := Some {| bf_c := bf_c bf; bf_slots := sl' |}; t_acc := t_acc ts |},
+           (chunk_res b rs cnt took, drops_of_list e stale))
+      | _, _ => (idle, (chunk_res b rs cnt took, drops_after e took rs))
+      end
+  end.
+
+(** a pull of a running loop that obtained the elements [rs]: the closure is invoked on them; the
+    loop goes on with its next pull, or returns because the closure panicked *)
+Definition deliver_loop (e : env) (ts : tstate) (q : req) (l : loopk) (crash : option N)
+           (rs : list run) (cnt : N) : tstate * option (res * list drops) :=
+  let done := total_cnt (t_acc ts) in
+  let '(inv, pan) := loop_invoke l crash done rs cnt in
+  let acc' := rev inv ++ t_acc ts in
+  match pan with
+  | Some used =>
+      ({| t_pc := PIdle; t_todo := t_todo ts; t_buf := t_buf ts; t_acc := [] |},
+       Some (RPanic PkUser (rev acc'), drops_after e used rs))
+  | None =>
+      ({| t_pc := PRes q; t_todo := t_todo ts; t_buf := t_buf ts; t_acc := acc' |}, None)
+  end.
+
 (** result of finishing a pull: new thread state, and the return event if the operation returned *)
 Definition deliver (e : env) (ts : tstate) (q : req) (pr : outcome pullres)
   : tstate * option (res * list drops) :=
@@ -282,25 +320,7 @@ Definition deliver (e : env) (ts : tstate) (q : req) (pr : outcome pullres)
       match pr with
       | Panic k => (idle, Some (RPanic k [], []))
       | Ok PREnd => (idle, Some (RNone, []))
-      | Ok (PRGot b rs cnt) =>
-          match q_mode q with
-          | MSingle v =>
-              (idle, Some (one_res (if reports_idx v then rs else map strip_idx rs), []))
-          | MChunk k =>
-              let took := N.min k cnt in
-              (idle, Some (chunk_res b rs cnt took, drops_after e took rs))
-          | MBuf k =>
-              let took := N.min k cnt in
-              match e_kind e, t_buf ts with
-              | KIter, Some bf =>
-                  let '(sl, stale) := write_slots (bf_slots bf) (runs_vals rs) in
-                  let sl' := take_slots (N.to_nat took) sl in
-                  ({| t_pc := PIdle; t_todo := t_todo ts;
-                      t_buf := Some {| bf_c := bf_c bf; bf_slots := sl' |}; t_acc := t_acc ts |},
-                   Some (chunk_res b rs cnt took, drops_of_list e stale))
-              | _, _ => (idle, Some (chunk_res b rs cnt took, drops_after e took rs))
-              end
-          end
+      | Ok (PRGot b rs cnt) => let '(ts', rd) := deliver_top e ts q b rs cnt in (ts', Some rd)
       end
   | CLoop l crash =>
       let fin (r : res) (d : list drops) :=
@@ -308,15 +328,7 @@ Definition deliver (e : env) (ts : tstate) (q : req) (pr : outcome pullres)
       match pr with
       | Panic k => fin (RPanic k (rev (t_acc ts))) []
       | Ok PREnd => fin (RLoop (rev (t_acc ts))) []
-      | Ok (PRGot b rs cnt) =>
-          let done := total_cnt (t_acc ts) in
-          let '(inv, pan) := loop_invoke l crash done rs cnt in
-          let acc' := rev inv ++ t_acc ts in
-          match pan with
-          | Some used => fin (RPanic PkUser (rev acc')) (drops_after e used rs)
-          | None =>
-              ({| t_pc := PRes q; t_todo := t_todo ts; t_buf := t_buf ts; t_acc := acc' |}, None)
-          end
+      | Ok (PRGot b rs cnt) => deliver_loop e ts q l crash rs cnt
       end
   end.
 
@@ -359,40 +371,49 @@ Definition stale_drops (e : env) (ts : tstate) : list drops :=
 Definition empty_slots (e : env) (c : N) : list (option N) :=
   match e_kind e with KIter => repeat None (N.to_nat c) | _ => [] end.
 
-(** the call point: thread [t] starts operation [o] *)
-Definition call (e : env) (c : cfg) (t : tid) (ts : tstate) (o : op) (rest : list op) : cfg :=
-  let sh := c_sh c in
-  let go (p : pc) :=
-    commit c t sh {| t_pc := p; t_todo := rest; t_buf := t_buf ts; t_acc := [] |} (LCall t) [ECall t o] in
-  let ret (b : option bufst) (r : res) (d : list drops) :=
-    commit c t sh {| t_pc := PIdle; t_todo := rest; t_buf := b; t_acc := [] |} (LCall t)
-           [ERet t r d; ECall t o] in
+(** the call point: thread [t] starts operation [o]: either the operation has shared-memory accesses
+    to perform ([CGo]: the thread moves to the program counter of the first one), or it returns at
+    once ([CRet]: new buffered iterator of the thread, result, elements destroyed) *)
+Inductive callres :=
+| CGo (p : pc)
+| CRet (b : option bufst) (r : res) (d : list drops).
+
+Definition call_res (e : env) (ts : tstate) (o : op) : callres :=
   match o with
-  | Next v => go (PRes {| q_n := 1; q_mode := MSingle v; q_ctx := CTop |})
+  | Next v => CGo (PRes {| q_n := 1; q_mode := MSingle v; q_ctx := CTop |})
   | Chunk n k =>
       match e_kind e with
-      | KIter => if n =? 0 then ret (t_buf ts) RNone []
-                 else go (PRes {| q_n := n; q_mode := MChunk k; q_ctx := CTop |})
-      | _ => go (PRes {| q_n := n; q_mode := MChunk k; q_ctx := CTop |})
+      | KIter => if n =? 0 then CRet (t_buf ts) RNone []
+                 else CGo (PRes {| q_n := n; q_mode := MChunk k; q_ctx := CTop |})
+      | _ => CGo (PRes {| q_n := n; q_mode := MChunk k; q_ctx := CTop |})
       end
   | BufNew n =>
-      if n =? 0 then ret (t_buf ts) (RPanic PkChunkZero []) []
-      else ret (Some {| bf_c := n; bf_slots := empty_slots e n |}) RUnit (stale_drops e ts)
+      if n =? 0 then CRet (t_buf ts) (RPanic PkChunkZero []) []
+      else CRet (Some {| bf_c := n; bf_slots := empty_slots e n |}) RUnit (stale_drops e ts)
   | BufNext k =>
       match t_buf ts with
-      | Some bf => go (PRes {| q_n := bf_c bf; q_mode := MBuf k; q_ctx := CTop |})
-      | None => ret None (RPanic PkAssert []) []
+      | Some bf => CGo (PRes {| q_n := bf_c bf; q_mode := MBuf k; q_ctx := CTop |})
+      | None => CRet None (RPanic PkAssert []) []
       end
-  | BufDrop => ret None RUnit (stale_drops e ts)
+  | BufDrop => CRet None RUnit (stale_drops e ts)
   | Loop l n crash =>
-      if n =? 0 then ret (t_buf ts) (RPanic PkChunkZero []) []
+      if n =? 0 then CRet (t_buf ts) (RPanic PkChunkZero []) []
       else if n =? 1 then
-        go (PRes {| q_n := 1; q_mode := MSingle (match l with LEnum => NIdVal | _ => NVal end);
-                    q_ctx := CLoop l crash |})
-      else go (PRes {| q_n := n; q_mode := MBuf n; q_ctx := CLoop l crash |})
-  | Skip => go PSkip
-  | TryLen => go (PLen false)
-  | HasMore => go (PLen true)
+        CGo (PRes {| q_n := 1; q_mode := MSingle (match l with LEnum => NIdVal | _ => NVal end);
+                     q_ctx := CLoop l crash |})
+      else CGo (PRes {| q_n := n; q_mode := MBuf n; q_ctx := CLoop l crash |})
+  | Skip => CGo PSkip
+  | TryLen => CGo (PLen false)
+  | HasMore => CGo (PLen true)
+  end.
+
+Definition call (e : env) (c : cfg) (t : tid) (ts : tstate) (o : op) (rest : list op) : cfg :=
+  match call_res e ts o with
+  | CGo p =>
+      commit c t (c_sh c) {| t_pc := p; t_todo := rest; t_buf := t_buf ts; t_acc := [] |} (LCall t) [ECall t o]
+  | CRet b r d =>
+      commit c t (c_sh c) {| t_pc := PIdle; t_todo := rest; t_buf := b; t_acc := [] |} (LCall t)
+             [ERet t r d; ECall t o]
   end.
 
 Definition src_next (e : env) (sh : shared) : option N :=
@@ -434,7 +455,7 @@ Definition step (e : env) (c : cfg) (t : tid) : cfg :=
       else commit c t sh (set_pc ts (PChkF q b)) l []
   | PSrc q b got =>
       if crashes_now e sh then
-        commit c t (with_src sh (s_cur sh) (s_calls sh + 1)) (set_pc ts (PUnw q got)) (LSrcPanic t) []
+        commit c t (with_src sh (s_cur sh) (s_calls sh + 1)) (set_pc ts (PUnw q b got)) (LSrcPanic t) []
       else
         let r := src_next e sh in
         let sh' := with_src sh (match r with Some _ => s_cur sh + 1 | None => s_cur sh end) (s_calls sh + 1) in
@@ -477,7 +498,7 @@ Definition step (e : env) (c : cfg) (t : tid) : cfg :=
             end
           else finish e c t sh' ts l q (Panic PkAssert)
       end
-  | PUnw q got =>
+  | PUnw q _ got =>
       let l := LAtom t SF AStore 1 0 in
       let sh' := with_f sh true in
       let vs := rev got in
